@@ -29,7 +29,8 @@ Definition load (s : state) : outcome :=
 
 (* once the caller is past its select, output is closed and its outcome is the current retErr *)
 Definition invD (s : state) : Prop :=
-  forall o, caller_outcome s = Some o -> fin s = true /\ o = load s.
+  (forall o, caller_outcome s = Some o -> fin s = true /\ o = load s) /\
+  (forall got, c s = COut got -> fin s = true /\ got = None).
 
 Lemma no_rsend : forall cf s k a, invO1 cf s -> writes (rafter cf) = [] -> r s = RSend k a -> False.
 Proof.
@@ -41,7 +42,7 @@ Lemma invD_step : forall cf s l s',
   writes (rafter cf) = [] -> reachable cf s -> quiet s -> quiet s' -> invD s ->
   step cf s l = Some s' -> invD s'.
 Proof.
-  intros cf s l s' W R Q Q' I H. unfold invD, quiet, load, caller_outcome in *.
+  intros cf s l s' W R Q Q' [I J] H. unfold invD, quiet, load, caller_outcome in *.
   pose proof (fun k a => no_rsend cf s k a (invO1_reach cf s R) W) as NS.
   destruct (invS_reach cf s R) as (I1 & I2 & _ & I4 & _ & _ & IS7 & _).
   destruct (invA_reach cf s R) as (_ & _ & IA3 & _).
@@ -49,25 +50,29 @@ Proof.
   destruct s; sproj. destruct Q as (? & ?). subst.
   assert (fpanic = None) by (apply IP1; reflexivity). subst. clear IP1.
   open_step' l H.
-  all: try assumption.
   all: try solve [destruct Q' as (? & ?); discriminate].
   all: clear Q'.
   all: cbn [c_cancel] in *.
+  all: try solve [split; assumption].
   all: try solve [exfalso; eapply NS; reflexivity].
   all: try solve [specialize (IS7 eq_refl); discriminate].
   all: try solve [specialize (IP5 _ eq_refl); discriminate].
-  all: intros o0 Ho; try discriminate Ho.
-  all: try solve [inversion Ho; subst; first [ split; reflexivity | apply I; reflexivity ]].
+  all: split; [intros o0 Ho | intros got0 Ho]; try discriminate Ho.
   all: try solve [destruct (I _ Ho) as [F ?]; split; [reflexivity || assumption | assumption]].
-  exfalso. destruct (I _ Ho) as [F _]. destruct (I1 F) as [X|X]; [discriminate|]. subst r.
-  specialize (I4 (I2 eq_refl)). w_contra.
+  all: try solve [destruct (J _ Ho) as [F ?]; split; [reflexivity || assumption | assumption]].
+  all: try solve [inversion Ho; subst; first [ split; reflexivity | apply I; reflexivity ]].
+  all: try solve [destruct (J _ eq_refl) as [F X]; try discriminate X;
+                  inversion Ho; subst; split; [assumption | reflexivity]].
+  1: { exfalso. destruct (I _ Ho) as [F _]. destruct (I1 F) as [X|X]; [discriminate|]. subst r.
+       specialize (I4 (I2 eq_refl)). w_contra. }
+  all: destruct (J _ eq_refl) as [F X]; try discriminate X; inversion Ho; subst; split; auto.
 Qed.
 
 Lemma invD_quiet : forall cf, writes (rafter cf) = [] ->
   forall s, reachable cf s -> quiet s -> invD s.
 Proof.
   intros cf W. apply (quiet_ind cf invD).
-  - intros _ o H. discriminate H.
+  - intros _. split; intros ? H; discriminate H.
   - intros s l s' R Q Q' I H. eapply invD_step; eauto.
 Qed.
 
@@ -77,7 +82,7 @@ Theorem cancel_result_nowrite : forall cf s o, reachable cf s -> ctxd s = false 
   o = match reterr s with Some e => OErr e | None => ONoOutput end.
 Proof.
   intros cf s o R Q1 Q2 W Hc.
-  destruct (invD_quiet cf W s R (conj Q1 Q2) o) as [_ H]; [|exact H].
+  destruct (invD_quiet cf W s R (conj Q1 Q2)) as [I _]. destruct (I o) as [_ H]; [|exact H].
   unfold caller_outcome. rewrite Hc. reflexivity.
 Qed.
 
@@ -85,7 +90,7 @@ Qed.
 Theorem cancel_result_nowrite_defer : forall cf s o, reachable cf s -> ctxd s = false ->
   wrote s = false -> writes (rafter cf) = [] -> caller_outcome s = Some o ->
   fin s = true /\ o = match reterr s with Some e => OErr e | None => ONoOutput end.
-Proof. intros cf s o R Q1 Q2 W Hc. apply (invD_quiet cf W s R (conj Q1 Q2) o Hc). Qed.
+Proof. intros cf s o R Q1 Q2 W Hc. apply (invD_quiet cf W s R (conj Q1 Q2)); exact Hc. Qed.
 
 Corollary cancel_returns_first_error : forall cf s o, reachable cf s -> ctxd s = false ->
   wrote s = false -> writes (rafter cf) = [] -> c s = CDone o ->
